@@ -65,6 +65,7 @@ func (e *Extensible) decodeBinaryUnsigned(r *io.BinReader) {
 
 // DecodeBinary implements io.Serializable.
 func (e *Extensible) DecodeBinary(r *io.BinReader) {
+	e.hash = util.Uint256{} // The receiver can have a hash of its previous contents cached.
 	e.decodeBinaryUnsigned(r)
 	if r.ReadB() != 1 {
 		if r.Err != nil {
